@@ -23,6 +23,9 @@ Section CliProofs.
   Variable show_value : V -> list Out.
   Variable show_diag : failure M EA EB EC -> Out.
   Variable stopped : Out.
+  Variable prelude_code : Code.
+  Variables msg_prelude msg_init stopped_repl : Out.
+  Variables is_blank is_quit : Code -> bool.
 
   Notation ctx := (ctx M Code A B C).
   Notation outcome := (outcome M EA EB EC V P).
@@ -144,6 +147,113 @@ Section CliProofs.
   Proof.
     intros c exprs. unfold Cli.cli, Cli.code_and_source. cbn [app].
     apply run_inputs_cs.
+  Qed.
+
+  (* ------------------------------------------------------------------ *)
+  (* Phase 2: arguments (prelude / init / inspect) and the non-interactive REPL *)
+  Notation repl := (repl M M_eqb Code S importer parse A B C T1 T2 EA EB EC V P
+                         transform check run k fuel Out show_print show_value show_diag stopped_repl is_blank is_quit).
+  Notation run_inputs_k := (run_inputs_k M M_eqb Code S importer parse A B C T1 T2 EA EB EC V P
+                                         transform check run k fuel Out show_print show_value show_diag stopped).
+  Notation cli_full := (cli_full M M_eqb Code S importer parse A B C T1 T2 EA EB EC V P
+                                 transform check run k fuel join_lines Out show_print show_value show_diag stopped
+                                 prelude_code msg_prelude msg_init stopped_repl is_blank is_quit).
+  Notation stage_inputs := (stage_inputs M Code join_lines prelude_code is_blank is_quit).
+  Notation effective_lines := (effective_lines Code is_blank is_quit).
+
+  (* two runs agree on what the property observes: exit status and stdout; and each keeps
+     "stderr is empty iff the status is 0" *)
+  Definition agree (r r' : cli_result Out) : Prop :=
+    exit_status Out r = exit_status Out r' /\ stdout Out r = stdout Out r'
+    /\ (stderr Out r = [] <-> exit_status Out r = 0).
+
+  Lemma repl_as_inputs : forall lines c out,
+      agree (repl c lines out) (run_inputs c (map (fun l => (l, CSText)) (effective_lines lines)) out).
+  Proof.
+    induction lines as [|l rest IH]; intros c out; cbn [Cli.repl Cli.effective_lines].
+    - cbn. repeat split; auto.
+    - destruct (is_blank l); [apply IH|]. destruct (is_quit l); [cbn; repeat split; auto|].
+      cbn [map Cli.run_inputs]. destruct (interpret c l CSText) as [c1 [v pr|f pr]]; [apply IH|].
+      cbn. repeat split; auto; discriminate.
+  Qed.
+
+  Lemma run_inputs_k_agree : forall l l2 c out (kk : ctx -> list Out -> cli_result Out),
+      (forall c' out', agree (kk c' out') (run_inputs c' l2 out')) ->
+      agree (run_inputs_k c l out kk) (run_inputs c (l ++ l2) out).
+  Proof.
+    induction l as [|[code cs] rest IH]; intros l2 c out kk Hk; cbn [Cli.run_inputs_k app].
+    - apply Hk.
+    - cbn [Cli.run_inputs]. destruct (interpret c code cs) as [c1 [v pr|f pr]]; [now apply IH|].
+      cbn. repeat split; auto; discriminate.
+  Qed.
+
+  Lemma agree_nil : forall c out, agree (mkCli Out 0 out []) (run_inputs c [] out).
+  Proof. intros. cbn. repeat split; auto. Qed.
+
+  (* the whole run is: evaluate the stage inputs in order, stop at the first failure *)
+  Theorem cli_full_as_inputs :
+    forall cfg c init_file file exprs stdin,
+      agree (cli_full cfg c init_file file exprs stdin)
+            (run_inputs c (stage_inputs cfg init_file file exprs stdin) []).
+  Proof.
+    intros cfg c init_file file exprs stdin. unfold Cli.cli_full, Cli.stage_inputs.
+    set (rest3 := if (is_none file && is_none exprs) || inspect cfg
+                  then map (fun l => (l, CSText)) (effective_lines stdin) else []).
+    assert (H3 : forall c3 out3,
+               agree (if (is_none file && is_none exprs) || inspect cfg
+                      then repl c3 stdin out3 else mkCli Out 0 out3 [])
+                     (run_inputs c3 rest3 out3)).
+    { intros c3 out3. unfold rest3. destruct ((is_none file && is_none exprs) || inspect cfg);
+        [apply repl_as_inputs | apply agree_nil]. }
+    assert (H2 : forall c2 out2,
+               agree (run_inputs_k c2 (code_and_source M Code join_lines file exprs) out2
+                        (fun c3 out3 => if (is_none file && is_none exprs) || inspect cfg
+                                        then repl c3 stdin out3 else mkCli Out 0 out3 []))
+                     (run_inputs c2 (code_and_source M Code join_lines file exprs ++ rest3) out2)).
+    { intros. apply run_inputs_k_agree. exact H3. }
+    assert (H1 : forall c1 out1,
+               agree (match (if load_user_init cfg then init_file else None) with
+                      | None => run_inputs_k c1 (code_and_source M Code join_lines file exprs) out1
+                                  (fun c3 out3 => if (is_none file && is_none exprs) || inspect cfg
+                                                  then repl c3 stdin out3 else mkCli Out 0 out3 [])
+                      | Some code =>
+                          match interpret c1 code CSFile with
+                          | (c2, Done _ _ _ _ _ _ v prints) =>
+                              run_inputs_k c2 (code_and_source M Code join_lines file exprs)
+                                (out1 ++ map show_print prints ++ show_value v)
+                                (fun c3 out3 => if (is_none file && is_none exprs) || inspect cfg
+                                                then repl c3 stdin out3 else mkCli Out 0 out3 [])
+                          | (_, Fail _ _ _ _ _ _ f _) => mkCli Out 1 out1 [show_diag f; msg_init]
+                          end
+                      end)
+                     (run_inputs c1 ((match (if load_user_init cfg then init_file else None) with
+                                      | Some code => [(code, CSFile)] | None => [] end)
+                                       ++ code_and_source M Code join_lines file exprs ++ rest3) out1)).
+    { intros c1 out1. destruct (if load_user_init cfg then init_file else None) as [code|]; [|apply H2].
+      cbn [app Cli.run_inputs]. destruct (interpret c1 code CSFile) as [c2 [v pr|f pr]]; [apply H2|].
+      cbn. repeat split; auto; discriminate. }
+    destruct (load_prelude cfg); [|apply H1].
+    cbn [app Cli.run_inputs]. destruct (interpret c prelude_code CSInternal) as [c1 [v pr|f pr]].
+    - cbn [app]. apply H1.
+    - cbn. repeat split; auto; discriminate.
+  Qed.
+
+  (* --no-prelude implies --no-init; and without -i the REPL (stdin) is not consulted
+     when a file or -e is given *)
+  Theorem no_prelude_implies_no_init :
+    forall no_init insp c init_file file exprs stdin,
+      cli_full (config_of_args true no_init insp) c init_file file exprs stdin
+      = cli_full (config_of_args true true insp) c None file exprs stdin.
+  Proof. reflexivity. Qed.
+
+  Theorem stdin_ignored_without_inspect :
+    forall no_prelude no_init c init_file file exprs stdin,
+      (is_none file && is_none exprs = false)%bool ->
+      cli_full (config_of_args no_prelude no_init false) c init_file file exprs stdin
+      = cli_full (config_of_args no_prelude no_init false) c init_file file exprs [].
+  Proof.
+    intros no_prelude no_init c init_file file exprs stdin H.
+    unfold Cli.cli_full. cbn [inspect config_of_args]. rewrite H. reflexivity.
   Qed.
 
 End CliProofs.
